@@ -324,3 +324,128 @@ def h_formula(formula, with_ops=None, node_refs=None, primed=False):
         w.canary(f'canary: "{formula}" is the negation of its meaning',
                  w.valid_goal(w.term(u) == z3.Not(sem)))
     return h
+
+
+# ---------------------------------------------------------------------------
+# documented precedence and associativity (doc/doc.md, "token precedence"):
+# (unparenthesised formula, its documented parenthesisation, a parenthesisation
+# the table excludes).  The spec side only ever parses the fully parenthesised
+# strings, which every yacc precedence table reads the same way.
+
+PREC_CONTEXT = dict(b='bool', c='bool', d='bool', x=(0, 6), y=(0, 2), z=(-3, 3), w=(-9, 20))
+
+PRECEDENCE = [
+    ('b <=> c => d', 'b <=> (c => d)', '(b <=> c) => d'),
+    ('b => c <=> d', '(b => c) <=> d', 'b => (c <=> d)'),
+    ('b => c ^ d', 'b => (c ^ d)', '(b => c) ^ d'),
+    ('b ^ c => d', '(b ^ c) => d', 'b ^ (c => d)'),
+    (r'b ^ c \/ d', r'b ^ (c \/ d)', r'(b ^ c) \/ d'),
+    (r'b \/ c ^ d', r'(b \/ c) ^ d', r'b \/ (c ^ d)'),
+    (r'b \/ c /\ d', r'b \/ (c /\ d)', r'(b \/ c) /\ d'),
+    (r'b /\ c \/ d', r'(b /\ c) \/ d', r'b /\ (c \/ d)'),
+    (r'b <=> c \/ d', r'b <=> (c \/ d)', r'(b <=> c) \/ d'),
+    (r'b /\ c => d', r'(b /\ c) => d', r'b /\ (c => d)'),
+    (r'b ^ c /\ d', r'b ^ (c /\ d)', r'(b ^ c) /\ d'),
+    ('b => c => d', '(b => c) => d', 'b => (c => d)'),
+    (r'~ b /\ c', r'(~ b) /\ c', r'~ (b /\ c)'),
+    (r'~ b \/ c', r'(~ b) \/ c', r'~ (b \/ c)'),
+    ('~ b => c', '(~ b) => c', '~ (b => c)'),
+    (r'b /\ x = y', r'b /\ (x = y)', None),
+    (r'x = y \/ b', r'(x = y) \/ b', None),
+    (r'b = c /\ d', r'(b = c) /\ d', r'b = (c /\ d)'),
+    (r'b \/ c # d', r'b \/ (c # d)', r'(b \/ c) # d'),
+    ('x + y < z', '(x + y) < z', None),
+    ('x + y * z = w', '(x + (y * z)) = w', '((x + y) * z) = w'),
+    ('x * y + z = w', '((x * y) + z) = w', '(x * (y + z)) = w'),
+    ('x - y - z = w', '((x - y) - z) = w', '(x - (y - z)) = w'),
+    ('x - y + z = w', '((x - y) + z) = w', '(x - (y + z)) = w'),
+    ('w / 2 * 2 = z', '((w / 2) * 2) = z', '(w / (2 * 2)) = z'),
+    ('w * 3 % 2 = y', '((w * 3) % 2) = y', '(w * (3 % 2)) = y'),
+    ('w % 5 / 2 = y', '((w % 5) / 2) = y', '(w % (5 / 2)) = y'),
+    ('w - x * y / 2 = z', '(w - ((x * y) / 2)) = z', '(((w - x) * y) / 2) = z'),
+    (r'b /\ x + y < z \/ c => d', r'((b /\ ((x + y) < z)) \/ c) => d', r'b /\ (((x + y) < z) \/ (c => d))'),
+    (r'\E y: y = 1 /\ x = y', r'\E y: ((y = 1) /\ (x = y))', r'(\E y: (y = 1)) /\ (x = y)'),
+    (r'\A b: b \/ c => d', r'\A b: ((b \/ c) => d)', r'(\A b: (b \/ c)) => d'),
+    ('b | c & d', r'b \/ (c /\ d)', r'(b \/ c) /\ d'),
+    ('b -> c <-> d', '(b => c) <=> d', 'b => (c <=> d)'),
+    ('! b & c', r'(~ b) /\ c', r'~ (b /\ c)'),
+    ('b | c ^ d', r'(b \/ c) ^ d', r'b \/ (c ^ d)'),
+]
+
+PRECEDENCE_PRIMED = [
+    ("x + y' = z", "(x + (y')) = z", "((x + y)') = z"),
+    (r"b /\ c'", r"b /\ (c')", r"(b /\ c)'"),
+    ("x' = y", "(x') = y", "(x = y)'"),
+    (r'X b /\ c', r'(X b) /\ c', r'X (b /\ c)'),
+    (r'~ X b \/ c', r'(~ (X b)) \/ c', r'~ (X (b \/ c))'),
+    ("x * y' < z", "(x * (y')) < z", "((x * y)') < z"),
+]
+
+
+def h_precedence(plain, right, wrong):
+    def h(ctx):
+        w = ctx.w
+        fol = w.aut
+        add = ctx.fn(type(fol).add_expr)
+        try:
+            u = add(fol, plain)
+        except Exception as e:
+            if w.symbolic:
+                w.run.refusal(f'Context.add_expr accepts the documented formula: {plain}', e, False)
+            else:
+                w.fail(f'Context.add_expr accepts: {plain}', repr(e))
+            return
+        den = denote.Den(fol.vars, w.z)
+        sem = den.formula(right)
+        guards = z3.And(*den.guards) if den.guards else z3.BoolVal(True)
+        w.oblige(f'spec-side arithmetic of "{right}" does not wrap at {denote.W} bits',
+                 w.valid_goal(guards), kind='pre')
+        w.oblige(f'Context.add_expr("{plain}") means its documented parenthesisation "{right}" (token precedence and associativity of doc/doc.md)',
+                 w.valid_goal(w.term(u) == sem))
+        if wrong is not None:
+            den2 = denote.Den(fol.vars, w.z)
+            w.canary(f'canary: "{plain}" means "{wrong}"',
+                     w.valid_goal(w.term(u) == den2.formula(wrong)))
+        else:
+            w.canary(f'canary: "{plain}" is the negation of its meaning',
+                     w.valid_goal(w.term(u) == z3.Not(sem)))
+    return h
+
+
+def h_two_contexts(defs1, defs2, formula):
+    """Operator definitions belong to the context that registered them: two
+    contexts in one process may give the same operator name different bodies."""
+    def h(ctx):
+        w = ctx.w
+        fol = w.aut
+        import omega.symbolic.fol as _fol
+        from ovc import specbdd
+        # an unrelated context used BEFORE, with the same names and other bodies
+        other = type(fol)()
+        other.bdd = specbdd.SpecBDD() if w.symbolic else type(fol.bdd)()
+        decl = {k: (v['dom'] if v['type'] != 'bool' else 'bool') for k, v in fol.vars.items()
+                if not k.endswith("'")}
+        if hasattr(other, 'declare_variables') and any(k.endswith("'") for k in fol.vars):
+            other.declare_variables(**decl)
+        else:
+            other.declare(**decl)
+        other.define(defs1)
+        other.add_expr(formula, with_ops=True)
+        ops = dict()
+        fol.define(defs2)
+        for line in defs2.strip().splitlines():
+            name, body = line.split('==', 1)
+            ops[name.strip()] = body.strip()
+        add = ctx.fn(type(fol).add_expr)
+        u = add(fol, formula, with_ops=True)
+        den = denote.Den(fol.vars, w.z, ops=ops)
+        sem = den.formula(formula)
+        w.oblige(f'Context.add_expr("{formula}") uses the definitions registered in THIS context (another context defined the same names differently before)',
+                 w.valid_goal(w.term(u) == sem))
+        ops1 = dict()
+        for line in defs1.strip().splitlines():
+            name, body = line.split('==', 1)
+            ops1[name.strip()] = body.strip()
+        w.canary('canary: both definitions mean the same', w.valid_goal(
+            w.term(u) == denote.Den(fol.vars, w.z, ops=ops1).formula(formula)))
+    return h
